@@ -173,7 +173,8 @@ def r2_probability(ctx, rule):
         v = c06._eval_frac(e, env)
         if v is None or v != Fraction(cnt, N) / ksp:
             good = False
-    skip = any(isinstance(s, ast.If) and U(s.test) in ('keyspace == 0', 'not keyspace') and isinstance(s.body[-1], ast.Continue) for s in lp.body)
+    skip = any(isinstance(s, ast.If) and U(inl(s.test)) in ('item[1] == 0', 'not item[1]', 'item[1] <= 0') and isinstance(s.body[-1], ast.Continue)
+               for s in lp.body)
     if good and skip and U(key) == 'item[0]':
         ctx.ok(rule, OFO, 'pcfg_omen_prob[level] = (count[level] / N) / keyspace[level]; zero keyspace skipped', facts)
     else:
